@@ -18,7 +18,7 @@ from vf.engine.runner import Broken, Result
 ID = "C09"
 LEVEL = "model_checking"
 RULE = (
-    "ECU models = all directed session-transition graphs on {0x01} + k further sessions (k=2 quick, ids (2,3) and (3,0x40); k=3 thorough: all 32768 graphs at depth 3, every 4th at depths 1/2/4), "
+    "ECU models = all directed session-transition graphs on {0x01} + k further sessions (k=2 quick: all 256 graphs on ids (2,3), every 4th on (3,0x40); k=3 thorough: all 32768 graphs at depth 3, every 4th at depths 1/2/4), "
     "self-loop 1->1 fixed, x depth x skip subsets x thorough on/off x reset on/off x refusal flavour {0x12, 0x7E, 0x22} for absent edges; "
     "each configuration is one complete run of the real scanner (127 probes per visited stack) under virtual time. states = distinct "
     "(graph, config, scan result, exit code) tuples; transitions = requests handled by the model ECU"
@@ -34,15 +34,19 @@ worker_init = scan_common.worker_init
 
 
 class SessionModel:
-    def __init__(self, nodes: tuple[int, ...], edges: frozenset[tuple[int, int]], flavour: int) -> None:
+    def __init__(self, nodes: tuple[int, ...], edges: frozenset[tuple[int, int]], flavour: int, tp_only_default: bool = False, latency: float = 0.0) -> None:
         self.nodes = nodes
         self.edges = edges
         self.flavour = flavour
+        self.tp_only_default = tp_only_default  # TesterPresent is refused outside the default session
+        self.latency = latency
 
     def respond(self, session: int, req: bytes) -> tuple[bytes | None, int]:
         sid = req[0]
         if sid == 0x3E and len(req) == 2:
-            return (None if req[1] & 0x80 else bytes([0x7E, req[1]])), session
+            if self.tp_only_default and session != 1:
+                return bytes([0x7F, 0x3E, 0x7F]), session  # negative responses are sent whatever the suppress bit says
+            return (None if req[1] & 0x80 else bytes([0x7E, req[1] & 0x7F])), session
         if sid == 0x10 and len(req) == 2:
             t = req[1] & 0x7F
             if (session, t) in self.edges:
@@ -110,18 +114,25 @@ def parse_paths(records: list[tuple[int, str, str]]) -> list[tuple[int, list[int
 
 def run_case(item: tuple[Any, ...]) -> tuple[dict[str, Any], SessionModel]:
     nodes, edges, flavour, depth, skip, thorough, reset = item[:7]
-    model = SessionModel(tuple(nodes), frozenset(tuple(e) for e in edges), flavour)
+    variant = item[8] if len(item) > 8 else ""
+    model = SessionModel(tuple(nodes), frozenset(tuple(e) for e in edges), flavour,
+                         tp_only_default=variant == "tp", latency=0.3 if variant == "tp" else 0.0)
     kw: dict[str, Any] = {"depth": depth, "skip": list(skip), "thorough": thorough}
     if reset:
         kw["reset"] = 1
     with_db = len(item) > 7 and bool(item[7])
-    box = scan_common.run_scanner("SessionsScanner", "SessionsScannerConfig", kw, model, db=with_db)
+    if variant == "db2":
+        # an earlier, deeper scan of the same target into the same database
+        scan_common.run_scanner("SessionsScanner", "SessionsScannerConfig", {"depth": 4, "skip": [], "thorough": False}, model, db=True)
+    box = scan_common.run_scanner("SessionsScanner", "SessionsScannerConfig", kw, model, db=with_db, keep_db=variant == "db2")
     if with_db:
         import sqlite3
 
         con = sqlite3.connect(box["db_path"])
         try:
-            box["transitions"] = con.execute("select destination, steps from session_transition order by rowid").fetchall()
+            box["transitions"] = con.execute(
+                "select destination, steps from session_transition where run = (select max(id) from scan_run) order by rowid"
+            ).fetchall()
             box["run_meta"] = con.execute("select end_time, exit_code from run_meta").fetchall()
             box["n_scan_result"] = con.execute("select count(*) from scan_result").fetchone()[0]
         finally:
@@ -200,7 +211,7 @@ def judge(item: tuple[Any, ...], box: dict[str, Any], model: SessionModel, res: 
                     v("db|session_transition-not-a-path", f"session_transition row {steps} -> {dest:#x} is not a path in the ECU's graph")
                     return
         rm = box.get("run_meta")
-        if not rm or rm[0][0] is None or rm[0][1] != 0:
+        if not rm or rm[-1][0] is None or rm[-1][1] != 0:
             v("db|run-meta", f"run_meta row {rm} after a scan that returned exit code 0")
             return
         res.count("db_rows_checked", len(rows))
@@ -214,7 +225,9 @@ def run_item(item: tuple[Any, ...]) -> Result:
     res.count("executions")
     res.count("transitions", len(box["log"]))
     nodes, edges, flavour, depth, skip, thorough, reset = item[:7]
-    res.seen("states", (nodes, tuple(sorted(edges)), flavour, depth, tuple(skip), thorough, reset, tuple(box["scanner"].result), box.get("exit")))
+    res.seen("states", (nodes, tuple(sorted(edges)), flavour, depth, tuple(skip), thorough, reset, item[7:], tuple(box["scanner"].result), box.get("exit")))
+    if len(item) > 8:
+        res.count("variant_" + item[8])
     res.seen("results", (nodes, tuple(box["scanner"].result)))
     if box.get("exit") == 0 and len(box["scanner"].result) > 1:
         res.count("scans_finding_nondefault_sessions")
@@ -239,12 +252,21 @@ def items(tier: str, seed: int) -> list[Any]:
     out: list[Any] = []
     if quick:
         for nodes in ((1, 2, 3), (1, 3, 0x40)):
-            for g in graphs(nodes):
+            for gi, g in enumerate(graphs(nodes)):
+                if nodes != (1, 2, 3) and gi % 4:
+                    continue  # the second id placement only on every 4th graph in the quick tier
                 e = tuple(sorted(g))
                 for depth in (1, 2, 3) if nodes == (1, 2, 3) else (2,):
                     out.append((nodes, e, 0x12, depth, (), False, False))
                 if nodes == (1, 2, 3):
                     out.append((nodes, e, 0x12, 3, (), False, True, True))  # with a scan database
+                    if len(e) % 2 == 0:
+                        # TesterPresent refused outside the default session, replies take 0.3 s (the keep-alive worker fires)
+                        out.append((nodes, e, 0x12, 2, (), False, True, False, "tp"))
+                    if len(e) % 4 == 1:
+                        # a second scan into a database that already holds the transitions of a deeper scan
+                        out.append((nodes, e, 0x7E, 1, (), False, True, True, "db2"))
+                        out.append((nodes, e, 0x22, 2, (3,), False, True, True, "db2"))
                     out.append((nodes, e, 0x7E, 2, (), False, True))
                     out.append((nodes, e, 0x22, 3, (), True, False))
                     out.append((nodes, e, 0x12, 3, (2,), False, False))
@@ -297,7 +319,7 @@ def finish(merged: Result, tier: str) -> dict[str, Any]:
     import shutil
 
     shutil.rmtree(f"/dev/shm/vf-scan-{__import__('os').getpid()}", ignore_errors=True)
-    for k in ("scans_finding_nondefault_sessions", "cases_where_depth_limit_cuts", "documented_aborts", "db_rows_checked"):
+    for k in ("scans_finding_nondefault_sessions", "cases_where_depth_limit_cuts", "documented_aborts", "db_rows_checked", "variant_tp", "variant_db2"):
         if not c.get(k):
             raise Broken(f"vacuous: {k} == 0")
     return {"exhaustive": True}
